@@ -1386,7 +1386,7 @@ func run(m *mon.M) {
 	// loading a description allocates heavily and the live heap is tiny: collect less often
 	debug.SetGCPercent(800)
 	r := m.Rand("descriptions")
-	n := m.N(700, 9000)
+	n := m.N(700, 7000)
 	for i := 0; i < n; i++ {
 		d := genDesc(r)
 		regs := variants(r, d, 4)
